@@ -10,13 +10,13 @@ case "$demo" in
   *.diff|*.patch) git apply "$demo" || { echo "demo patch does not apply"; exit 3; } ;;
   *) cp "$demo" "$dest" ;;
 esac
-echo "--- demo on clean tree (must pass)"; sh -c "$cmd" > /tmp/confirm_clean.log 2>&1; echo "rc=$?"; grep -E "^test result|panicked|error(\[|:)" /tmp/confirm_clean.log | head -5
+echo "--- demo on clean tree (must pass)"; sh -c "$cmd" > $wt/confirm_clean.log 2>&1; echo "rc=$?"; grep -E "^test result|panicked|error(\[|:)" $wt/confirm_clean.log | head -5
 git apply "$patch" || { echo "patch does not apply"; exit 3; }
-echo "--- demo with patch (must fail)"; sh -c "$cmd" > /tmp/confirm_mut.log 2>&1; echo "rc=$?"; grep -E "^test result|panicked" /tmp/confirm_mut.log | head -5
+echo "--- demo with patch (must fail)"; sh -c "$cmd" > $wt/confirm_mut.log 2>&1; echo "rc=$?"; grep -E "^test result|panicked" $wt/confirm_mut.log | head -5
 # full suite with patch but without the demo
 case "$demo" in
   *.diff|*.patch) git apply -R "$demo" ;;
   *) rm -f "$dest" ;;
 esac
-echo "--- full suite with patch (must pass)"; cargo test --workspace --offline > /tmp/confirm_suite.log 2>&1; echo "rc=$?"; grep -E "^test result: FAILED|failed" /tmp/confirm_suite.log | head -5; grep -c "^test result: ok" /tmp/confirm_suite.log
+echo "--- full suite with patch (must pass)"; cargo test --workspace --offline > $wt/confirm_suite.log 2>&1; echo "rc=$?"; grep -E "^test result: FAILED|failed" $wt/confirm_suite.log | head -5; grep -c "^test result: ok" $wt/confirm_suite.log
 git checkout -q -- . ; git status --short | grep -v out_mut | head
